@@ -1765,9 +1765,12 @@ func findRequiredLandmarkChainLeftToRight(r *Runner, chain *syntax.RequiredLandm
 			nextStart = minEnd
 		}
 
-		candidate := first.Start
-		if candidate < r.Runtextpos {
-			candidate = r.Runtextpos
+		// the match may use another alternative of the landmark than the one found (at this
+		// position or further on), so walk back over anything that can be leading whitespace of
+		// any alternative, then over the leading loop
+		candidate := first.CoreStart
+		for candidate > r.Runtextpos && landmarkLeadingWhitespace(chain.Landmarks[0], r.Runtext[candidate-1]) {
+			candidate--
 		}
 		for candidate > r.Runtextpos && chain.LeadingLoopSet.CharIn(r.Runtext[candidate-1]) {
 			candidate--
@@ -1781,6 +1784,17 @@ func findRequiredLandmarkChainLeftToRight(r *Runner, chain *syntax.RequiredLandm
 	}
 
 	r.Runtextpos = r.Runtextend
+	return false
+}
+
+// landmarkLeadingWhitespace reports whether ch can be part of the optional or mandatory
+// whitespace in front of any alternative of the landmark.
+func landmarkLeadingWhitespace(landmark syntax.RequiredLandmark, ch rune) bool {
+	for _, alt := range landmark.Alternatives {
+		if alt.LeadingWhitespaceSet != nil && alt.LeadingWhitespaceSet.CharIn(ch) {
+			return true
+		}
+	}
 	return false
 }
 
